@@ -19,6 +19,7 @@ pub fn reset_world(t_ms: u64) {
     sentinel_core::system_metric::verif_set_memory_usage(0);
     clock::set_ms(t_ms);
     clock::take_sleeps();
+    set_entry_resource_type(0);
 }
 
 pub fn now_ms() -> u64 {
@@ -38,8 +39,20 @@ impl Built {
     }
 }
 
+/// Resource type the harness entries declare (0 = the builder's default Common, 1 = Web, 2 = RPC):
+/// nothing in any property depends on it, so checks vary it.
+pub static ENTRY_RESOURCE_TYPE: std::sync::atomic::AtomicU8 = std::sync::atomic::AtomicU8::new(0);
+pub fn set_entry_resource_type(t: u8) {
+    ENTRY_RESOURCE_TYPE.store(t, std::sync::atomic::Ordering::SeqCst);
+}
+
 pub fn build_full(res: &str, traffic: TrafficType, batch: u32, args: Option<ParamsList>, att: Option<ParamsMap>) -> Built {
     let mut b = EntryBuilder::new(res.to_string()).with_traffic_type(traffic).with_batch_count(batch);
+    match ENTRY_RESOURCE_TYPE.load(std::sync::atomic::Ordering::SeqCst) {
+        1 => b = b.with_resource_type(sentinel_core::base::ResourceType::Web),
+        2 => b = b.with_resource_type(sentinel_core::base::ResourceType::RPC),
+        _ => {}
+    }
     if args.is_some() {
         b = b.with_args(args);
     }
